@@ -147,6 +147,73 @@ def c2(rep, cov, tier):
     cov["c2_units"] = len(recs)
     cov["c2_fault_labels_checked"] = n
     cov["traces_validated_against_impl"] += len(recs)
+    c2_lsp(rep, cov, recs)
+
+
+def relayout(text, rng):
+    """same tokens, new layout: line breaks, indentation, comments with 2- and 3-byte characters before lexemes"""
+    toks = text.split()
+    out = [toks[0]]
+    for t in toks[1:]:
+        out.append(rng.choice([" ", "\n", "\n   ", "\r\n", " (* \u00e9\u20ac *) ", "\n(* gr\u00f6\u00dfe *) ", "\t"]))
+        out.append(t)
+    return "".join(out) + "\n"
+
+
+def c2_lsp(rep, cov, recs):
+    """the editor's view (lsp_project.rs map_label): the range published for the planted fault must START at a
+    lexeme of LabelTargets - line and character computed from the document text alone"""
+    import lspdrv
+    from concurrent.futures import ThreadPoolExecutor
+    rng = random.Random(vlib.SEED + 52)
+    docs = []
+    for rec in recs:
+        plants = [(i, e) for i, e in enumerate(rec["edits"]) if e[0].startswith("plant:")]
+        if len(plants) != 1 or len(rec["violated"]) != 1:
+            continue
+        i, e = plants[0]
+        text, _ = unitgen.render(rec["unit"])
+        insts = set(st["inst"] for p in rec["unit"]["pous"] for st in p["body"] if st["k"] == "call")
+        docs.append((rec, e, set(rec["targets"][i]), insts, relayout(text, rng)))
+    docs = docs[:: max(1, len(docs) // 400)]
+    bs = 12
+    batches = [docs[k:k + bs] for k in range(0, len(docs), bs)]
+
+    def run(b):
+        msgs = []
+        for k, d in enumerate(b):
+            msgs.append(lspdrv.m_open(lspdrv.URI[1], d[4], k + 1) if k == 0 else lspdrv.m_change(lspdrv.URI[1], [d[4]], k + 1))
+        msgs += [lspdrv.m_shutdown(9000), lspdrv.M_EXIT]
+        res = lspdrv.run_server(msgs, timeout=120)
+        pubs = {o["v"]: o["diags"] for o in lspdrv.observe(res["frames"]) if o["k"] == "pub"}
+        return [pubs.get(k + 1) for k in range(len(b))]
+
+    with ThreadPoolExecutor(max_workers=vlib.NCPU) as ex:
+        outs = [x for b in ex.map(run, batches) for x in b]
+    n = 0
+    for (rec, e, targets, insts, text), diags in zip(docs, outs):
+        if not diags:
+            continue
+        want_codes = rec["codes"][rec["violated"][0]]
+        hit = [d for d in diags if d[0] in want_codes]
+        if not hit:
+            continue
+        n += 1
+        lines = text.split("\n")
+        ok = False
+        seen = []
+        for code, line, ch in hit:
+            rest = lines[line][ch:] if line < len(lines) and ch <= len(lines[line]) else None
+            seen.append(None if rest is None else rest[:20])
+            if rest is None:
+                continue
+            starts = set(t for t in targets if t != "<call>") | (insts if "<call>" in targets else set())
+            if any(rest.startswith(t) and not (rest[len(t):len(t) + 1].isalnum() or rest[len(t):len(t) + 1] == "_") for t in starts):
+                ok = True
+        if not ok:
+            rep.add("lsp-range-does-not-start-at-the-construct:%s" % e[0].split(":")[1], labels={e[0], "lsp"},
+                    detail={"edit": e, "allowed_lexemes": sorted(targets), "text_at_range_start": seen, "diagnostics": hit}, replay={"text": text})
+    cov["c2_lsp_ranges_checked"] = n
 
 
 def lexeme_spans(text):
